@@ -42,8 +42,11 @@ func genC18(g *Gen) *Plan {
 	s1, s2 := "", ""
 	if g.p(0.5) {
 		s1, s2 = storeURL, storeURL2
-		if g.p(0.3) {
+		switch g.n(0, 9) {
+		case 0, 1, 2:
 			s2 = ""
+		case 3, 4:
+			s2 = storeURL // one store URL may back several caches
 		}
 	}
 	p.Configs = []Config{twoCacheConfig(s1, s2)}
